@@ -700,7 +700,15 @@ class Interp(EvalMixin, BuiltinMixin):
                 if self.is_subclass_exc(whens[k - 1][0], exc_name):
                     run.assume(zbool(truth(self.ev(parse_expr(text), sfr))))
             self.py_raise(whens[k - 1][0])
-        if con.returns_ is not None and ("'match'" in repr(con.returns_) or "'cdict'" in repr(con.returns_)):
+        obj_alias = {}
+        if isinstance(con.returns_, tuple) and con.returns_[0] == "obj" and any(isinstance(d, tuple) and d[0] == "alias" for d in con.returns_[2].values()):
+            # ("obj", cls, {field: ("alias", param)}): the new object KEEPS that argument in that field (by reference)
+            obj_alias = {f: d[1] for f, d in con.returns_[2].items() if isinstance(d, tuple) and d[0] == "alias"}
+            rdesc = (con.returns_[0], con.returns_[1], {f: (("drop",) if f in obj_alias else d) for f, d in con.returns_[2].items()})
+            result = self.make_value(rdesc, "ret") if ":" in rdesc[1] else fresh(rdesc, "ret", run)
+            for f, pname in obj_alias.items():
+                result.fields[f] = bound[pname]
+        elif con.returns_ is not None and ("'match'" in repr(con.returns_) or "'cdict'" in repr(con.returns_)):
             result = self.make_value(con.returns_, "ret")
         else:
             result = fresh(con.returns_, "ret", run) if con.returns_ is not None and not _has_alias(con.returns_) else None
@@ -773,6 +781,13 @@ class Interp(EvalMixin, BuiltinMixin):
         if isinstance(d, tuple) and d[0] == "cdict":
             # dict with the given concrete keys
             return DictV({k: self.make_value(dd, f"{base}[{k!r}]") for k, dd in d[1].items()})
+        if isinstance(d, tuple) and d[0] == "cset":
+            # a set holding len(d[1]) pairwise different symbolic elements of the described scalar types
+            elems = [fresh(x, f"{base}{{{i}}}", self.run) for i, x in enumerate(d[1])]
+            for i in range(len(elems)):
+                for j in range(i):
+                    self.run.assume(elems[i] != elems[j])
+            return SetV({SymKey(e): True for e in elems})
         if isinstance(d, tuple) and d[0] == "match":
             # an abstract successful regex match with d[1] capture groups (fresh strings); .group(k) / .groups() read them
             m = MatchV(None, None, None)
